@@ -30,7 +30,8 @@ fn take(c: Vec<Cell>, k: usize) -> Vec<Cell> {
     if has_panic(&c) { c } else { c.into_iter().take(k).collect() }
 }
 
-fn run_fn(fi: usize, deque: bool, xs: &[f64], ys: &[f64], a0: &CallArgs) -> Vec<Cell> {
+fn run_fn(fi: usize, be: u8, xs: &[f64], ys: &[f64], a0: &CallArgs) -> Vec<Cell> {
+    use tevec::export::ndarray::{Array1, ArrayView1, s};
     let f = &RFNS[fi];
     let a = CallArgs { w: a0.w, mp: a0.mp, pct: a0.pct, rev: a0.rev, d: a0.d, xs, ys };
     let xv = xs.to_vec();
@@ -39,10 +40,27 @@ fn run_fn(fi: usize, deque: bool, xs: &[f64], ys: &[f64], a0: &CallArgs) -> Vec<
         Kind::Fdiff => cells(guarded(std::panic::AssertUnwindSafe(|| { let r: Vec<f64> = xv.ts_fdiff(a.d, a.w); r }))),
         Kind::VFdiff => cells(guarded(std::panic::AssertUnwindSafe(|| { let r: Vec<f64> = xv.ts_vfdiff(a.d, a.w, a.mp); r }))),
         _ => {
-            if deque {
-                let dq: VecDeque<f64> = xv.iter().cloned().collect();
-                let dy: VecDeque<f64> = yv.iter().cloned().collect();
+            if be == 1 {
+                let dq: VecDeque<f64> = vh::wrapped_deque(&xv);
+                let dy: VecDeque<f64> = vh::wrapped_deque(&yv);
                 cells(guarded(std::panic::AssertUnwindSafe(|| roll_call!(fi, dq, &dy, &a, Vec<f64>))))
+            } else if be == 2 {
+                // a REVERSED contiguous ndarray view (stride -1) of the same logical series
+                let rx = Array1::from_vec(xv.iter().rev().cloned().collect::<Vec<f64>>());
+                let ry = Array1::from_vec(yv.iter().rev().cloned().collect::<Vec<f64>>());
+                let vx: ArrayView1<f64> = rx.slice(s![..;-1]);
+                let vy: ArrayView1<f64> = ry.slice(s![..;-1]);
+                cells(guarded(std::panic::AssertUnwindSafe(|| roll_call!(fi, vx, &vy, &a, Vec<f64>))))
+            } else if be == 3 {
+                // every second cell of a longer ndarray (stride 2), poison in between
+                let mut bx = vec![-99.5; if xv.is_empty() { 0 } else { 2 * xv.len() - 1 }];
+                let mut by = vec![-99.5; if yv.is_empty() { 0 } else { 2 * yv.len() - 1 }];
+                for (i, x) in xv.iter().enumerate() { bx[2 * i] = *x }
+                for (i, y) in yv.iter().enumerate() { by[2 * i] = *y }
+                let (ax, ay) = (Array1::from_vec(bx), Array1::from_vec(by));
+                let vx: ArrayView1<f64> = ax.slice(s![..;2]);
+                let vy: ArrayView1<f64> = ay.slice(s![..;2]);
+                cells(guarded(std::panic::AssertUnwindSafe(|| roll_call!(fi, vx, &vy, &a, Vec<f64>))))
             } else {
                 cells(guarded(std::panic::AssertUnwindSafe(|| roll_call!(fi, xv, &yv, &a, Vec<f64>))))
             }
@@ -66,19 +84,21 @@ fn main() {
             let (pct, rev) = (rng.chance(1, 2), rng.chance(1, 2));
             let d = *rng.pick(&[0.3, 0.5, 1.0, 1.5]);
             for (fi, f) in RFNS.iter().enumerate() {
-                let deque = (si + fi) % 2 == 1 && !matches!(f.kind, Kind::Fdiff | Kind::VFdiff);
+                // backend rotates over Vec (index body), VecDeque (iterator body), reversed and strided ndarray views
+                let be: u8 = if matches!(f.kind, Kind::Fdiff | Kind::VFdiff) { 0 } else { ((si + fi) % 4) as u8 };
+                let deque = be == 1;
                 let a = CallArgs { w, mp, pct, rev, d, xs: &xs, ys: &ys };
-                let whole = run_fn(fi, deque, &xs, &ys, &a);
+                let whole = run_fn(fi, be, &xs, &ys, &a);
                 for k in 0..=len {
                     // omitted min_periods is also in scope when both the prefix and the whole series have len >= w
                     let mps: Vec<Option<usize>> = if k >= w && rng.chance(1, 2) { vec![mp, None] } else { vec![mp] };
                     for mpk in mps {
                         let ak = CallArgs { w, mp: mpk, pct, rev, d, xs: &xs[..k], ys: &ys[..k] };
-                        let wholek = if mpk == mp { whole.clone() } else { run_fn(fi, deque, &xs, &ys, &CallArgs { w, mp: mpk, pct, rev, d, xs: &xs, ys: &ys }) };
-                        em.case("custom:prefixm", &format!("part=prefix fn={} be={} len={} cut={} mp={}{}", f.name, if deque { "deque" } else { "vec" }, len, if k == len { "all" } else if k == 0 { "0" } else { "mid" }, if mpk.is_none() { "omitted" } else { "explicit" }, if k == 0 { " nt=0" } else { "" }),
-                            &format!("prefix fn={} be={} w={} mp={:?} pct={} rev={} d={} cut={} xs={:?} ys={:?}", f.name, if deque { "deque" } else { "vec" }, w, mpk, pct, rev, d, k, xs, ys),
+                        let wholek = if mpk == mp { whole.clone() } else { run_fn(fi, be, &xs, &ys, &CallArgs { w, mp: mpk, pct, rev, d, xs: &xs, ys: &ys }) };
+                        em.case("custom:prefixm", &format!("part=prefix fn={} be={} len={} cut={} mp={}{}", f.name, ["vec", "deque", "nd_rev", "nd_step2"][be as usize], len, if k == len { "all" } else if k == 0 { "0" } else { "mid" }, if mpk.is_none() { "omitted" } else { "explicit" }, if k == 0 { " nt=0" } else { "" }),
+                            &format!("prefix fn={} be={} w={} mp={:?} pct={} rev={} d={} cut={} xs={:?} ys={:?}", f.name, ["vec", "deque", "nd_rev", "nd_step2"][be as usize], w, mpk, pct, rev, d, k, xs, ys),
                             || model_term(f, !deque, "f", &ak),
-                            || join(run_fn(fi, deque, &xs[..k], &ys[..k], &ak), take(wholek.clone(), k)));
+                            || join(run_fn(fi, be, &xs[..k], &ys[..k], &ak), take(wholek.clone(), k)));
                     }
                 }
             }
@@ -139,19 +159,19 @@ fn main() {
         let first = h + w - 1;
         let scale = 4.0 * (h + tl) as f64 * max_abs(&hb, max_abs(&ha, 10.0));
         for (fi, f) in RFNS.iter().enumerate() {
-            let deque = (si + fi) % 2 == 1;
+            let be: u8 = if matches!(f.kind, Kind::Fdiff | Kind::VFdiff) { 0 } else { ((si + fi) % 4) as u8 };
             let a = CallArgs { w, mp, pct, rev, d, xs: &xa, ys: &ya };
             let cmp = if f.exact { "custom:window:exact".to_string() } else { format!("custom:window:1e-9,{}", scale) };
             // the plain family treats NaN as an ordinary (non-finite) value: its histories must be finite
             let plain = f.fam == "featp" || f.fam == "fdiff";
             let fin = |v: &Vec<f64>| -> Vec<f64> { v.iter().map(|x| if plain && x.is_nan() { 1.25 } else { *x }).collect() };
             let (xa, xb) = (fin(&xa), fin(&xb));
-            em.case(&cmp, &format!("part=window fn={} be={} h={} w={} exact={}", f.name, if deque { "deque" } else { "vec" }, h.min(12), w.min(10), f.exact),
-                &format!("window fn={} be={} w={} mp={:?} pct={} rev={} d={} historyA={:?} historyB={:?} tail={:?} | second series A={:?} B={:?} tail={:?}", f.name, if deque { "deque" } else { "vec" }, w, mp, pct, rev, d, ha, hb, tail, hy_a, hy_b, tail2),
+            em.case(&cmp, &format!("part=window fn={} be={} h={} w={} exact={}", f.name, ["vec", "deque", "nd_rev", "nd_step2"][be as usize], h.min(12), w.min(10), f.exact),
+                &format!("window fn={} be={} w={} mp={:?} pct={} rev={} d={} historyA={:?} historyB={:?} tail={:?} | second series A={:?} B={:?} tail={:?}", f.name, ["vec", "deque", "nd_rev", "nd_step2"][be as usize], w, mp, pct, rev, d, ha, hb, tail, hy_a, hy_b, tail2),
                 || "(@nil Z)".to_string(),
                 || {
-                    let oa = run_fn(fi, deque, &xa, &ya, &a);
-                    let ob = run_fn(fi, deque, &xb, &yb, &CallArgs { w, mp, pct, rev, d, xs: &xb, ys: &yb });
+                    let oa = run_fn(fi, be, &xa, &ya, &a);
+                    let ob = run_fn(fi, be, &xb, &yb, &CallArgs { w, mp, pct, rev, d, xs: &xb, ys: &yb });
                     let tail_of = |c: Vec<Cell>| -> Vec<Cell> {
                         if has_panic(&c) { c } else { c.into_iter().skip(first).collect() } };
                     join(tail_of(oa), tail_of(ob))
